@@ -58,34 +58,48 @@ fn key_bytes(k: u64) -> Vec<u8> {
     v
 }
 
-/// value id -> record value bytes (3-byte header window decided by v % 3)
+/// length in bytes of value #v (header included); the Lean model has the same function (`valLen`, op `len`)
+fn val_len(v: u64) -> usize {
+    (if v >= 1000 {
+        (v - 1000) / 3
+    } else if v == 2 {
+        0
+    } else if v == 5 {
+        1
+    } else if v == 8 {
+        2
+    } else if v % 7 == 0 {
+        10 + v % 8
+    } else if v % 7 == 5 {
+        200 + (v * 13) % 200
+    } else if v % 7 == 6 {
+        1000 + (v * 131) % 3000
+    } else {
+        10 + (v * 37) % 110
+    }) as usize
+}
+
+/// value id -> record value bytes: 3-byte header window decided by v % 3 (0 chunk, 1 other valid kind, 2 invalid),
+/// then the id, then filler up to exactly `val_len(v)` bytes
 fn value_bytes(v: u64) -> Vec<u8> {
-    let mut r = Rng::new(v.wrapping_mul(0x9E37) ^ 0xABCD);
-    let len = match v % 7 {
-        0 => r.below(8),
-        1..=4 => r.below(120),
-        5 => 200 + r.below(200),
-        _ => 1000 + r.below(3000),
-    } as usize;
-    let mut payload = v.to_le_bytes().to_vec();
-    payload.extend(r.bytes(len));
+    let len = val_len(v);
     let mut out = match v % 3 {
         0 => vec![0x91, 0x01],
         1 => vec![0x91, [2u8, 3, 5, 0, 4, 6, 7][((v / 3) % 7) as usize]],
-        _ => match v {
-            2 => return vec![],
-            5 => return vec![0x91],
-            8 => return vec![0x91, 0x01],
-            _ => {
-                if (v / 3) % 2 == 0 {
-                    vec![0x91, 0x2a]
-                } else {
-                    vec![0xc1]
-                }
+        _ => {
+            if (v / 3) % 2 == 0 {
+                vec![0x91, 0x2a]
+            } else {
+                vec![0xc1, 0x00]
             }
-        },
+        }
     };
-    out.extend(payload);
+    out.extend(v.to_le_bytes());
+    let mut r = Rng::new(v.wrapping_mul(0x9E37) ^ 0xABCD);
+    while out.len() < len {
+        out.push(r.next() as u8);
+    }
+    out.truncate(len);
     out
 }
 
@@ -128,6 +142,7 @@ struct World {
     seed16: [u8; 16],
     max: usize,
     cache: usize,
+    maxval: usize,
     store: Option<NodeRecordStore>,
     cmd_tx: mpsc::Sender<LocalSwarmCmd>,
     cmd_rx: mpsc::Receiver<LocalSwarmCmd>,
@@ -183,7 +198,7 @@ fn big_to_u256(b: &BigUint) -> U256 {
 }
 
 impl World {
-    fn new(max: usize, cache: usize, peer_seed: u64) -> World {
+    fn new(max: usize, cache: usize, peer_seed: u64, maxval: usize) -> World {
         let root = scratch_dir("store-");
         let storage = root.path().join("record_store");
         std::fs::create_dir_all(&storage).expect("mkdir");
@@ -203,6 +218,7 @@ impl World {
             seed16,
             max,
             cache,
+            maxval,
             store: None,
             cmd_tx,
             cmd_rx,
@@ -237,7 +253,7 @@ impl World {
             storage_dir: root.join("record_store"),
             historic_quote_dir: root.to_path_buf(),
             max_records: self.max,
-            max_value_bytes: 4 * 1024 * 1024,
+            max_value_bytes: self.maxval,
             records_cache_size: self.cache,
             encryption_seed: self.seed16,
         }
@@ -734,6 +750,27 @@ impl World {
                 }
                 "ok".into()
             }
+            ["kadput", k, v] => {
+                // the unverified kad path: only its size test is observed (nothing is stored by it)
+                let (Some(k), Ok(v)) = (knows(self, k), v.parse::<u64>()) else { return "bad-op".into() };
+                let bytes = self.learn_value(v);
+                let rec = Record { key: self.keys[&k].0.clone(), value: bytes, publisher: None, expires: None };
+                let rt_lane = new_lane_rt();
+                let res = {
+                    let _g = rt_lane.enter();
+                    libp2p::kad::store::RecordStore::put(self.store.as_mut().expect("store"), rec)
+                };
+                drop(rt_lane);
+                match res {
+                    Ok(()) => "ok".into(),
+                    Err(libp2p::kad::store::Error::ValueTooLarge) => "too-large".into(),
+                    Err(e) => format!("err:{e:?}"),
+                }
+            }
+            ["len", v] => {
+                let Ok(v) = v.parse::<u64>() else { return "bad-op".into() };
+                value_bytes(v).len().to_string()
+            }
             ["crash", tears @ ..] => self.crash(tears),
             ["get", k] => {
                 let Some(k) = knows(self, k) else { return "bad-op".into() };
@@ -1041,6 +1078,17 @@ fn pick_value(rng: &mut Rng, w: &World, k: u64) -> u64 {
             return *rng.pick(p);
         }
     }
+    if w.maxval < 100_000 && rng.chance(3, 4) {
+        // a small max_value_bytes is configured: every length from max-20 to max+2
+        // (put_verified has no size test; with encryption the file is 16 bytes longer than the value)
+        let len = (w.maxval as u64).saturating_sub(20) + rng.below(23);
+        let c = match rng.below(20) {
+            0 => 1,      // no valid header
+            1..=10 => 2, // chunk header
+            _ => 0,      // another valid header
+        };
+        return 1000 + 3 * len + c;
+    }
     let base = rng.below(40) * 3;
     match rng.below(20) {
         0 => base + 2,
@@ -1131,6 +1179,10 @@ fn gen_op(rng: &mut Rng, w: &World, g: &Gen) -> String {
             return format!("deliver {}", rng.pick(&deliverable));
         }
     }
+    if rng.chance(1, 12) {
+        let v = pick_value(rng, w, k);
+        return if rng.chance(1, 2) { format!("kadput {k} {v}") } else { format!("len {v}") };
+    }
     match rng.below(if g.mode == Mode::Cap { 16 } else { 11 }) {
         0 | 1 => format!("get {k}"),
         2 => format!("contains {k}"),
@@ -1195,11 +1247,16 @@ impl Runner {
     fn line(&mut self, line: &str) -> String {
         let ws: Vec<&str> = line.split_whitespace().collect();
         let (rec, res) = match ws.as_slice() {
-            ["init", m, c, p] => match (m.parse::<usize>(), c.parse::<usize>(), p.parse::<u64>()) {
-                (Ok(m), Ok(c), Ok(p)) if c >= 1 => {
+            ["init", m, c, p, rest @ ..] if rest.len() <= 1 => match (
+                m.parse::<usize>(),
+                c.parse::<usize>(),
+                p.parse::<u64>(),
+                rest.first().map(|x| x.parse::<usize>()).unwrap_or(Ok(ant_networking::MAX_PACKET_SIZE)),
+            ) {
+                (Ok(m), Ok(c), Ok(p), Ok(mv)) if c >= 1 => {
                     self.flush_fails();
                     self.w = None;
-                    let mut w = World::new(m, c, p);
+                    let mut w = World::new(m, c, p, mv);
                     w.hist.push(line.to_string());
                     self.w = Some(w);
                     self.n_hist += 1;
@@ -1244,7 +1301,7 @@ impl Runner {
                     }
                 };
                 if res != "panic" && res != "bad-op" {
-                    let mutating = !ws.is_empty() && !matches!(ws[0], "get" | "contains" | "addrs" | "ls" | "dist" | "far" | "cache" | "pending" | "metrics" | "key");
+                    let mutating = !ws.is_empty() && !matches!(ws[0], "kadput" | "len" | "get" | "contains" | "addrs" | "ls" | "dist" | "far" | "cache" | "pending" | "metrics" | "key");
                     if mutating {
                         let _ = catch_unwind(AssertUnwindSafe(|| {
                             w.check_views();
@@ -1342,6 +1399,7 @@ fn main() {
         r.out.finish();
         return;
     }
+    size_limit_corpus(&mut r);
     let mut rng = Rng::new(args.seed ^ (mode as u64).wrapping_mul(0x51ED));
     let mut key_base = 0u64;
     for h in 0..args.n {
@@ -1357,6 +1415,7 @@ fn main() {
             Mode::Cap => (*rng.pick(&[0u64, 1, 1, 2, 2, 2, 3, 3, 4]), *rng.pick(&[1u64, 2, 3, 25]), rng.range(3, 9)),
         };
         let peer = rng.below(1000);
+        let small_maxval = if mode != Mode::Cap && rng.chance(1, 3) { Some(rng.range(64, 400)) } else { None };
         let g = Gen { mode, nkeys, key_base, disciplined: mode == Mode::Cap && rng.chance(1, 3) };
         key_base = (key_base + nkeys) % 3000;
         let nops = rng.range(5, 60);
@@ -1364,7 +1423,10 @@ fn main() {
         let mut script: Vec<String> = vec![];
         let mut finals: Vec<(bool, Vec<String>)> = vec![];
         for sch in 0..schedules {
-            r.line(&format!("init {max} {cache} {peer}"));
+            match small_maxval {
+                Some(mv) => r.line(&format!("init {max} {cache} {peer} {mv}")),
+                None => r.line(&format!("init {max} {cache} {peer}")),
+            };
             for k in g.key_base..g.key_base + nkeys {
                 r.line(&format!("key {k} @"));
             }
@@ -1443,6 +1505,48 @@ fn main() {
     let n = r.n_hist;
     r.out.count_n("histories", n);
     r.out.finish();
+}
+
+/// Corpus (C02/C01): records within a few bytes of `max_value_bytes`, completely written and registered,
+/// must be served again after a restart. `put_verified` has no size test, `RecordStore::put` refuses
+/// `len >= max`, and an encrypted file is 16 bytes longer than its value.
+fn size_limit_corpus(r: &mut Runner) {
+    let max = 100u64;
+    // max-1, max-16, max-17 first, on their own
+    r.line(&format!("init 8 2 7 {max}"));
+    for (i, len) in [max - 1, max - 16, max - 17].iter().enumerate() {
+        let k = i as u64 + 1;
+        let v = 1000 + 3 * len + 2;
+        r.line(&format!("key {k} @"));
+        r.line(&format!("len {v}"));
+        r.line(&format!("kadput {k} {v}"));
+        let id = r.world().next_id;
+        r.line(&format!("put {k} {v} c"));
+        r.line(&format!("run {id}"));
+        r.line(&format!("deliver {id}"));
+    }
+    r.line("crash");
+    r.observe(true);
+    r.out.nontrivial_case("size-limit-corpus-3");
+    // then every length from max-20 to max+2, with both valid header classes
+    r.line(&format!("init 40 3 8 {max}"));
+    let lens: Vec<u64> = (max - 20..=max + 2).collect();
+    for (i, len) in lens.iter().enumerate() {
+        let k = 100 + i as u64;
+        let c = if i % 2 == 0 { 2 } else { 0 };
+        let v = 1000 + 3 * len + c;
+        r.line(&format!("key {k} @"));
+        r.line(&format!("kadput {k} {v}"));
+        let id = r.world().next_id;
+        let rt = if c == 2 { "c".to_string() } else { format!("n{v}") };
+        r.line(&format!("put {k} {v} {rt}"));
+        r.line(&format!("run {id}"));
+        r.line(&format!("deliver {id}"));
+    }
+    r.line("addrs");
+    r.line("crash");
+    r.observe(true);
+    r.out.nontrivial_case("size-limit-corpus-all");
 }
 
 /// C10: the clean-up threshold at the real `MAX_RECORDS_COUNT / 10`
